@@ -141,14 +141,58 @@ type block struct {
 	w int
 }
 
+// MULTI-PASS CONTAINERS (document-level dimension, third strengthening round).  The property
+// speaks about the lines of a block whatever the number of times the layout engine lays that
+// block out: the result must be the one of the model (a function of cfg + items) also when the
+// SAME box tree is laid out again from the start.  Modes ("" = plain block flow on one tall page,
+// every paragraph laid out exactly once):
+//   page-remake     a page-margin box shows counter(page) "/" counter(pages): every page is made
+//                   twice (the page-based counters are only known after the first pass), the whole
+//                   document is laid out a second time from the same box tree;
+//   columns         the blocks are the content of a multi-column container (column-count 1 or 2,
+//                   break-inside: avoid paragraphs): column balancing lays the content out
+//                   several times;
+//   flex-column / flex-row   the blocks are flex items (flex: none): an item is laid out to find
+//                   its hypothetical size and again at its final position;
+//   avoid-next-page several short pages and break-inside: avoid paragraphs: a paragraph first tried
+//                   at the bottom of a page is laid out again at the top of the next one.
+var multiPassModes = []string{"page-remake", "page-remake", "columns", "columns", "flex-column", "flex-row", "avoid-next-page", "avoid-next-page"}
+
+// pageH: page height of mode avoid-next-page (0 = the tall page)
+type docOpt struct {
+	mode  string
+	cols  int // columns: column-count
+	pageH int
+}
+
 // the blocks of one document, in order: every block carries its own font / line-height /
 // text-align / ... so that one Layout call sees different values of them
-func document(blocks []block) string {
+func document(blocks []block, o docOpt) string {
 	var sb strings.Builder
-	fmt.Fprintf(&sb, `<style>@font-face{src:url(file://%s/weasyprint.otf);font-family:weasyprint} @page{size:30000px 400000px;margin:0} body{margin:0} p{margin:0 0 0 7px;padding:0 0 0 3px}</style>`, render.FontDir)
+	page, pextra, open, closing := "size:30000px 400000px;margin:0", "", "", ""
+	switch o.mode {
+	case "page-remake":
+		page = `size:30000px 400000px;margin:13px 0 31px 17px;@bottom-center{content:counter(page) "/" counter(pages);font:10px Ahem}`
+	case "columns":
+		open, closing = fmt.Sprintf(`<div style="column-count:%d;column-gap:11px">`, o.cols), "</div>"
+		pextra = ";break-inside:avoid"
+	case "flex-column":
+		open, closing = `<div style="display:flex;flex-direction:column;align-items:flex-start">`, "</div>"
+		pextra = ";flex:none"
+	case "flex-row":
+		open, closing = `<div style="display:flex;flex-direction:row;align-items:flex-start">`, "</div>"
+		pextra = ";flex:none"
+	case "avoid-next-page":
+		if o.pageH > 0 {
+			page = fmt.Sprintf("size:30000px %dpx;margin:0", o.pageH)
+		}
+		pextra = ";break-inside:avoid"
+	}
+	fmt.Fprintf(&sb, `<style>@font-face{src:url(file://%s/weasyprint.otf);font-family:weasyprint} @page{%s} body{margin:0} p{margin:0 0 0 7px;padding:0 0 0 3px%s}</style>%s`, render.FontDir, page, pextra, open)
 	for _, b := range blocks {
 		fmt.Fprintf(&sb, `<p style="%s">%s</p>`, b.p.style(b.w), b.p.inner())
 	}
+	sb.WriteString(closing)
 	return sb.String()
 }
 
@@ -157,7 +201,7 @@ func (p *para) document(widths []int) string {
 	for _, w := range widths {
 		bs = append(bs, block{p, w})
 	}
-	return document(bs)
+	return document(bs, docOpt{})
 }
 
 // ---------------------------------------------------------------- generators
@@ -1320,13 +1364,13 @@ func itemTags(items []item, p *para, engine string) []string {
 
 // projects the paragraphs (one document holding each of them once); ok=false when nothing
 // is to be compared (a case was written if the implementation failed)
-func (rn *runner) project(ps []*para, engine, kind string, glyph func(*para) int) (all [][]item, ok bool) {
+func (rn *runner) project(ps []*para, engine, kind string, glyph func(*para) int, o docOpt) (all [][]item, ok bool) {
 	fc := rn.fc(engine)
 	var bs []block
 	for _, p := range ps {
 		bs = append(bs, block{p, 100})
 	}
-	html0 := document(bs)
+	html0 := document(bs, o)
 	doc0, err := render.ParseHTML(html0, true, nil)
 	if err != nil {
 		return nil, false
@@ -1365,7 +1409,36 @@ func emOf(p *para) int { return p.Em }
 
 // a document of several different paragraphs, each at a sweep of widths
 func (rn *runner) runDoc(ps []*para, r *vlib.Rng, engine string, maxWidths int, kind string) {
-	all, ok := rn.project(ps, engine, kind, emOf)
+	// the multi-pass dimension is drawn from a generator DERIVED from r without advancing it:
+	// the plain documents of a run are the ones of the earlier rounds
+	cp := *r
+	mr := vlib.NewRng(cp.U64() ^ 0x6d756c7469706173)
+	var o docOpt
+	if forceMode != "" || mr.Chance(3, 10) {
+		o.mode = vlib.Pick(mr, multiPassModes)
+		if forceMode != "" && forceMode != "any" {
+			o.mode = forceMode
+		}
+		o.cols = vlib.Pick(mr, []int{1, 2, 2})
+		// what a second pass can get wrong is the state kept on the shared box tree between
+		// two passes: the used text-indent of the first line is such a state, so paragraphs
+		// with a non-zero text-indent are made frequent here (every other paragraph, at
+		// least one per document)
+		indented := 0
+		for _, p := range ps {
+			if p.Indent == 0 && mr.Chance(1, 2) {
+				p.Indent = vlib.Pick(mr, []int{p.Em, 2 * p.Em, 7, 3 * p.Em, -p.Em, -3})
+			}
+			if p.Indent != 0 {
+				indented++
+			}
+		}
+		if indented == 0 {
+			p := vlib.Pick(mr, ps)
+			p.Indent = vlib.Pick(mr, []int{p.Em, 2 * p.Em, 7, 3 * p.Em, -p.Em, -3})
+		}
+	}
+	all, ok := rn.project(ps, engine, kind, emOf, o)
 	if !ok {
 		return
 	}
@@ -1412,7 +1485,41 @@ func (rn *runner) runDoc(ps []*para, r *vlib.Rng, engine string, maxWidths int, 
 			its[i], its[j] = its[j], its[i]
 		}
 	}
-	rn.runBlocks(bs, its, engine, kind)
+	if o.mode == "avoid-next-page" {
+		o.pageH = rn.pageHeight(bs, engine, mr)
+	}
+	rn.runBlocks(bs, its, engine, kind, o)
+}
+
+// page height for mode avoid-next-page: the blocks are first laid out on the tall page; the
+// page is at least as tall as the tallest paragraph (a paragraph is never split: it would
+// show up as two boxes) and at most twice that, so that about every other paragraph does not
+// fit below its predecessors and is laid out again on the next page.  0 = keep the tall page.
+func (rn *runner) pageHeight(bs []block, engine string, mr *vlib.Rng) int {
+	var pages []*bo.PageBox
+	var err error
+	out := render.Guard(func() {
+		pages, err = render.Layout(document(bs, docOpt{}), nil, false, true, rn.fc(engine))
+	})
+	if out.Status != "ok" || err != nil || len(pages) != 1 {
+		delete(rn.fonts, engine)
+		return 0
+	}
+	maxH := 1
+	for _, p := range paragraphs(pages[0]) {
+		// the lines may stick out of the block (line-height 0 with tall atomic inlines is
+		// still one line box of that height; but be generous)
+		h := int(p.Box().MarginHeight()) + 1
+		for _, l := range p.Box().Children {
+			if b := int(l.Box().PositionY+l.Box().MarginHeight()-p.Box().PositionY) + 1; b > h {
+				h = b
+			}
+		}
+		if h > maxH {
+			maxH = h
+		}
+	}
+	return maxH + mr.Range(0, maxH)
 }
 
 // what distinguishes the blocks of a document (tags)
@@ -1436,9 +1543,9 @@ func docTags(bs []block) []string {
 	return t
 }
 
-func (rn *runner) runBlocks(bs []block, its [][]item, engine, kind string) {
+func (rn *runner) runBlocks(bs []block, its [][]item, engine, kind string, o docOpt) {
 	fc := rn.fc(engine)
-	html := document(bs)
+	html := document(bs, o)
 	var (
 		pages []*bo.PageBox
 		err   error
@@ -1447,16 +1554,28 @@ func (rn *runner) runBlocks(bs []block, its [][]item, engine, kind string) {
 		pages, err = render.Layout(html, nil, false, true, fc)
 	})
 	dtags := docTags(bs)
-	if out.Status != "ok" || err != nil || len(pages) != 1 {
+	if o.mode != "" {
+		dtags = append(dtags, "multi-pass:"+o.mode)
+	}
+	// one page, except when the mode is about page breaks
+	if out.Status != "ok" || err != nil || len(pages) == 0 || (len(pages) != 1 && o.pageH == 0) {
 		rn.w.Add(vlib.Case{Kind: kind, Coq: "CBad 2", Desc: map[string]interface{}{"engine": engine, "html": html, "status": out.Status, "panic": out.Msg, "site": out.Site, "pages": len(pages)},
 			Tags: append(dtags, "engine="+engine, "layout-failed", "site="+out.Site), Nontrivial: true})
 		delete(rn.fonts, engine) // do not reuse a font configuration after a panic
 		return
 	}
-	ps := paragraphs(pages[0])
+	// the paragraphs of all pages, in order (a paragraph is never split between two pages /
+	// columns: break-inside: avoid and pages taller than any paragraph; otherwise the count differs)
+	var ps []bo.Box
+	for _, pg := range pages {
+		ps = append(ps, paragraphs(pg)...)
+	}
 	if len(ps) != len(bs) {
-		rn.w.Add(vlib.Case{Kind: kind, Coq: "CBad 3", Desc: map[string]interface{}{"html": html, "paragraphs": len(ps)}, Tags: append(dtags, "engine="+engine), Nontrivial: true})
+		rn.w.Add(vlib.Case{Kind: kind, Coq: "CBad 3", Desc: map[string]interface{}{"html": html, "paragraphs": len(ps), "blocks": len(bs), "pages": len(pages)}, Tags: append(dtags, "engine="+engine), Nontrivial: true})
 		return
+	}
+	if len(pages) > 1 {
+		dtags = append(dtags, "doc-several-pages")
 	}
 	for i, b := range bs {
 		p, w, items := b.p, b.w, its[i]
@@ -1473,6 +1592,9 @@ func (rn *runner) runBlocks(bs []block, its [][]item, engine, kind string) {
 		if len(dtags) > 0 {
 			// the other blocks of the document matter (state shared by one Layout call)
 			desc["block"], desc["document"] = i, html
+		}
+		if o.mode != "" {
+			desc["multi_pass"] = o.mode // the container that makes the engine lay the block out more than once
 		}
 		rn.w.Add(vlib.Case{
 			Kind:       kind,
@@ -1504,7 +1626,7 @@ func (rn *runner) runMon(p *para, r *vlib.Rng, engine string) {
 		}
 	}
 	strip(p.Kids)
-	all, ok := rn.project([]*para{p}, engine, "mon", func(*para) int { return 0 })
+	all, ok := rn.project([]*para{p}, engine, "mon", func(*para) int { return 0 }, docOpt{})
 	if !ok {
 		return
 	}
@@ -1656,6 +1778,9 @@ func (rn *runner) runCorpus(path string) {
 		Para   *para  `json:"para"`
 		Widths []int  `json:"widths"`
 		Engine string `json:"engine"`
+		// optional: the blocks inside a multi-pass container (see multiPassModes)
+		MultiPass string `json:"multi_pass"`
+		Cols      int    `json:"cols"`
 	}
 	if json.Unmarshal(b, &c) != nil || c.Para == nil {
 		fmt.Fprintln(os.Stderr, "c11: unreadable corpus file", path)
@@ -1664,7 +1789,11 @@ func (rn *runner) runCorpus(path string) {
 	if c.Engine == "" {
 		c.Engine = "pango"
 	}
-	all, ok := rn.project([]*para{c.Para}, c.Engine, "corpus", emOf)
+	o := docOpt{mode: c.MultiPass, cols: c.Cols}
+	if o.mode == "columns" && o.cols == 0 {
+		o.cols = 2
+	}
+	all, ok := rn.project([]*para{c.Para}, c.Engine, "corpus", emOf, o)
 	if !ok {
 		return
 	}
@@ -1674,7 +1803,7 @@ func (rn *runner) runCorpus(path string) {
 		bs = append(bs, block{c.Para, w})
 		its = append(its, all[0])
 	}
-	rn.runBlocks(bs, its, c.Engine, "corpus")
+	rn.runBlocks(bs, its, c.Engine, "corpus", o)
 }
 
 func probeFile(path, engine string) {
@@ -1699,7 +1828,12 @@ func probeFile(path, engine string) {
 	if err != nil {
 		panic(err)
 	}
-	for i, p := range paragraphs(pages[0]) {
+	var allp []bo.Box
+	for _, pg := range pages {
+		allp = append(allp, paragraphs(pg)...)
+	}
+	fmt.Printf("%d pages\n", len(pages))
+	for i, p := range allp {
 		fmt.Printf("p#%d content-box x=%v y=%v w=%v\n  items %s\n", i, p.Box().ContentBoxX(), p.Box().ContentBoxY(), p.Box().Width, its[i])
 		for _, l := range p.Box().Children {
 			if !bo.LineT.IsInstance(l) {
@@ -1722,11 +1856,14 @@ func probeFile(path, engine string) {
 	}
 }
 
+var forceMode string
+
 func main() {
 	out := flag.String("out", "cases.jsonl", "output file")
 	n := flag.Int("n", 3000, "number of cases")
 	probe := flag.String("probe", "", "development aid: lay out this HTML file and print, for every <p>, the projected items and the observed lines")
 	pengine := flag.String("engine", "pango", "engine of -probe")
+	flag.StringVar(&forceMode, "multipass", "", "development aid: every document in this multi-pass mode (or `any`)")
 	flag.Parse()
 	if *probe != "" {
 		probeFile(*probe, *pengine)
